@@ -32,6 +32,8 @@ def run(ctx):
     ctx.rule("R06.q", "depends model, batch rebind: Parameters._update_deps('sub') -> _call_watcher(rebuilt watcher, second event) -> _batch_call_watchers interpreted in sequence with a batch open and the "
                       "method's watcher on the path root already queued by an earlier replacement of the same batch: the flush executes exactly one watcher on behalf of the method (once per batch), "
                       "and a watcher of another party queued alongside still runs once", floor=1)
+    ctx.rule("R06.d", "depends model, class-level resolution: Parameters._spec_to_obj interpreted on a class B(A) for a Parameter inherited from A, one declared on B and a slot spec: every "
+                      "dependency carries cls=B (one group, one watcher per method and object)", floor=1)
     ctx.rule("R06.m", "depends model, instance binding: _resolve_mcs_deps interpreted for class-level dependencies naming one parameter under two kinds ('p' and 'p:bounds', both orders), another "
                       "parameter and a foreign class's: one entry out per entry in, bound to the instance, each with its OWN name and kind", floor=1)
     ctx.rule("R06.t", "slot dispatch model: Parameter._trigger_event interpreted for an instance-level and a class-level Parameter x the owner's batch open / closed: the watchers of a slot "
@@ -72,6 +74,14 @@ def run(ctx):
     depends_model.report(ctx, "R06.a", "R06.b")
     depends_model.report_batch_rebind(ctx, "R06.q")
     depends_model.report_resolve_mcs(ctx, "R06.m")
+    n_cl, p_cl = depends_model.class_level_resolution(ctx)
+    f_cl = ctx.repo.func(P + "Parameters._spec_to_obj")
+    ctx.abstract_cases += n_cl
+    if p_cl:
+        ctx.fail("R06.d", f_cl, f_cl.node, "depends model (class-level resolution): %s" % p_cl[0], key=f_cl.qualname + "::class-level-resolution",
+                 input="class A: a = Number(); class B(A): b = Number(); @depends('a', 'b', watch=True) def m -> B().param.update(a=1, b=1) calls m twice")
+    else:
+        ctx.ok("R06.d", f_cl, f_cl.node, "depends model: at class level every plain dependency resolves to (inst=None, cls=the class resolved on), inherited Parameters included")
     from checks.shared import trigger_event_model
     trigger_event_model(ctx, "R06.t")
     from checks.shared import flush_model
